@@ -69,6 +69,24 @@ class GridRegressor(BaseEstimator):
         return np.array([self.table_.get(float(v), self.values[0]) for v in X[:, 1]], dtype=float)
 
 
+class WMean(BaseEstimator):
+    """exact least-squares learner over H = {feature value -> real}: per feature value the weighted mean of y"""
+    def fit(self, X, y, sample_weight=None):
+        X = np.asarray(X)
+        y = np.asarray(y, dtype=float)
+        w = np.ones(len(y)) if sample_weight is None else np.asarray(sample_weight, dtype=float)
+        self.table_ = {}
+        for v in np.unique(X[:, 1]):
+            m = X[:, 1] == v
+            sw = w[m].sum()
+            self.table_[float(v)] = float((w[m] * y[m]).sum() / sw) if sw > 0 else 0.0
+        return self
+
+    def predict(self, X):
+        X = np.asarray(X)
+        return np.array([self.table_.get(float(v), 0.0) for v in X[:, 1]], dtype=float)
+
+
 def hyp_of(predictor, F):
     """which hypothesis (tuple over feature values 0..F-1) a fitted predictor is"""
     Xq = np.array([[0, f] for f in range(F)], dtype=float)
